@@ -185,7 +185,7 @@ class Typer:
                 if f.kind == "classmethod":
                     t = T(("type", f.cls))
                 else:
-                    t = T(("cls", f.cls))
+                    t = T(("cls", getattr(f, "self_cls", None) or f.cls))
             env[arg.arg] = t
         if a.vararg:
             env[a.vararg.arg] = T(("seq", self.ann(a.vararg.annotation, f.module)))
@@ -790,6 +790,8 @@ def _is_stub(x) -> bool:
     if not isinstance(x, FuncInfo) or isinstance(x.node, ast.Lambda):
         return False
     if x.is_abstract_stub():
+        return True
+    if any((dotted_of(d) or "").endswith("abstractmethod") for d in x.node.decorator_list):
         return True
     body = [
         s for s in x.node.body if not (isinstance(s, ast.Expr) and isinstance(s.value, ast.Constant))
